@@ -202,6 +202,7 @@ class Repo:
             if not base.is_dir():
                 raise AnalysisError(f"package directory missing: {base}")
             files.extend(sorted(base.rglob("*.py")))
+        parsed: list[tuple[Path, str, str, str, ast.Module]] = []
         for f in files:
             rel = f.relative_to(self.root).as_posix()
             modname = rel[:-3].replace("/", ".")
@@ -212,9 +213,12 @@ class Repo:
                 tree = ast.parse(src, filename=str(f))
             except SyntaxError as e:  # the tree must compile
                 raise AnalysisError(f"syntax error in {rel}: {e}") from e
-            from .normalise import normalise
+            parsed.append((f, rel, modname, src, tree))
+        from .normalise import collect_signatures, normalise
 
-            tree, stats = normalise(tree)
+        sigs = collect_signatures([p[4] for p in parsed])
+        for f, rel, modname, src, tree in parsed:
+            tree, stats = normalise(tree, sigs)
             for k_, v_ in stats.items():
                 self.normalised[k_] = self.normalised.get(k_, 0) + v_
             m = ModuleInfo(modname, f, rel, src, tree)
